@@ -422,7 +422,9 @@ def generate(run_seed, tier):
                 sub = ['flip']
             ops.append(['store_spectrum', o.choice(['flux', 'flux', 'simple',
                                                     'native']),
-                        o.choice([1, 3, 6]), 'Spectra%d' % len(ops), sub])
+                        o.choice([1, 3, 6, 1, 3, 6, -2, 0, 2, 4, 5]),
+                        'Spectra%d' % len(ops), sub,
+                        o.random() < 0.3])
             if o.random() < 0.4:
                 ops += [['close'], ['open', 'a']]
     elif cfg['part'] == 'reload':
@@ -770,14 +772,24 @@ def execute(case, keep_text=False):
                     res = model.model(wngrid=g[sub[0]:sub[0] + sub[1]])
                 else:
                     res = model.model()
-                spec = binner.generate_spectrum_output(
-                    res, output_size=OutputSize(op[2]))
+                # sizes reach the binners as enum members or as plain
+                # integers (the program itself passes output_size-3)
+                osz = OutputSize(op[2]) if op[2] in (1, 3, 6) else op[2]
+                spec = binner.generate_spectrum_output(res, output_size=osz)
                 if r == 0:
                     spectra_written[op[3]] = (
                         op[1] + (':warped' if sub and sub[0] in ('warp', 'flip')
                                  else ''),
                         op[2], [np.array(res[0]), np.array(res[1]),
                                 np.array(res[2])])
+                if len(op) > 5 and op[5]:
+                    # as the program does: the result dictionary is built,
+                    # the model is evaluated again (contributions, the next
+                    # solution), and only then the dictionary is written
+                    model.model_contrib()
+                    model.model(wngrid=S.native_grid(cfg['model'])[1:-1])
+                    if r == 0:
+                        out.bump('probes', 'written_after_later_evaluations')
                 o.store_dictionary(spec, group_name=op[3])
             elif k == 'store_solution':
                 sol = fitres['solutions'][0]
